@@ -13,4 +13,33 @@ namespace Romea.Hidden.C15
 
 theorem hidden_state_as_recorded : Romea.Generated.C15.hiddenState = [] := by rfl
 
+/-- The names (not only the types) of what every translated function reads, carries through its loops and returns are those
+    the bridge theorems were written against: a function that now reads or writes ANOTHER member of the same type keeps its Lean
+    type, and a positional application in a bridge would keep checking. -/
+theorem signatures_as_recorded : Romea.Generated.C15.signatures = [
+    "Grid.init_2 (buffer_ numberOfCellsAlongAxes_0 numberOfCellsAlongAxes_1) result: buffer_', indexCoefficients__0', indexCoefficients__1', numberOfCellsAlongAxes__0', numberOfCellsAlongAxes__1'",
+    "Grid.init_3 (buffer_ numberOfCellsAlongAxes_0 numberOfCellsAlongAxes_1 numberOfCellsAlongAxes_2) result: buffer_', indexCoefficients__0', indexCoefficients__1', indexCoefficients__2', numberOfCellsAlongAxes__0', numberOfCellsAlongAxes__1', numberOfCellsAlongAxes__2'",
+    "WrappableGrid.wrapCellIndexes__2 (cellIndexes_0 cellIndexes_1 indexOffsetsAlongAxes__0 indexOffsetsAlongAxes__1 numberOfCellsAlongAxes__0 numberOfCellsAlongAxes__1) result: ret_0, ret_1",
+    "WrappableGrid.wrapCellIndexes__3 (cellIndexes_0 cellIndexes_1 cellIndexes_2 indexOffsetsAlongAxes__0 indexOffsetsAlongAxes__1 indexOffsetsAlongAxes__2 numberOfCellsAlongAxes__0 numberOfCellsAlongAxes__1 numberOfCellsAlongAxes__2) result: ret_0, ret_1, ret_2",
+    "WrappableGrid.computeCellLinearIndex__2 (cellIndexes_0 cellIndexes_1 indexCoefficients__0 indexCoefficients__1 indexOffsetsAlongAxes__0 indexOffsetsAlongAxes__1 numberOfCellsAlongAxes__0 numberOfCellsAlongAxes__1) result: ret",
+    "WrappableGrid.computeCellLinearIndex__3 (cellIndexes_0 cellIndexes_1 cellIndexes_2 indexCoefficients__0 indexCoefficients__1 indexCoefficients__2 indexOffsetsAlongAxes__0 indexOffsetsAlongAxes__1 indexOffsetsAlongAxes__2 numberOfCellsAlongAxes__0 numberOfCellsAlongAxes__1 numberOfCellsAlongAxes__2) result: ret",
+    "WrappableGrid.translate_2.loop1 (emptyValue firstSlab indexCoefficients__0 indexCoefficients__1 indexOffsetsAlongAxes__0 indexOffsetsAlongAxes__1 lastSlab numberOfCellsAlongAxes__0 numberOfCellsAlongAxes__1) carried: buffer_, cellIndexes_0, cellIndexes_1, done",
+    "WrappableGrid.translate_2.loop2 (emptyValue firstSlab indexCoefficients__0 indexCoefficients__1 indexOffsetsAlongAxes__0 indexOffsetsAlongAxes__1 lastSlab numberOfCellsAlongAxes__0 numberOfCellsAlongAxes__1) carried: buffer_, cellIndexes_0, cellIndexes_1, done",
+    "WrappableGrid.translate_2.loop3 (emptyValue firstSlab indexCoefficients__0 indexCoefficients__1 indexOffsetsAlongAxes__0 indexOffsetsAlongAxes__1 lastSlab numberOfCellsAlongAxes__0 numberOfCellsAlongAxes__1) carried: buffer_, cellIndexes_0, cellIndexes_1, done",
+    "WrappableGrid.translate_2 (fuel buffer_ emptyValue indexCoefficients__0 indexCoefficients__1 indexOffset_0 indexOffset_1 indexOffsetsAlongAxes__0 indexOffsetsAlongAxes__1 numberOfCellsAlongAxes__0 numberOfCellsAlongAxes__1) result: buffer_', indexOffsetsAlongAxes__0', indexOffsetsAlongAxes__1' (none = fuel exhausted)",
+    "WrappableGrid.translate_3.loop1 (emptyValue firstSlab indexCoefficients__0 indexCoefficients__1 indexCoefficients__2 indexOffsetsAlongAxes__0 indexOffsetsAlongAxes__1 indexOffsetsAlongAxes__2 lastSlab numberOfCellsAlongAxes__0 numberOfCellsAlongAxes__1 numberOfCellsAlongAxes__2) carried: buffer_, cellIndexes_0, cellIndexes_1, cellIndexes_2, done",
+    "WrappableGrid.translate_3.loop2 (emptyValue firstSlab indexCoefficients__0 indexCoefficients__1 indexCoefficients__2 indexOffsetsAlongAxes__0 indexOffsetsAlongAxes__1 indexOffsetsAlongAxes__2 lastSlab numberOfCellsAlongAxes__0 numberOfCellsAlongAxes__1 numberOfCellsAlongAxes__2) carried: buffer_, cellIndexes_0, cellIndexes_1, cellIndexes_2, done",
+    "WrappableGrid.translate_3.loop3 (emptyValue firstSlab indexCoefficients__0 indexCoefficients__1 indexCoefficients__2 indexOffsetsAlongAxes__0 indexOffsetsAlongAxes__1 indexOffsetsAlongAxes__2 lastSlab numberOfCellsAlongAxes__0 numberOfCellsAlongAxes__1 numberOfCellsAlongAxes__2) carried: buffer_, cellIndexes_0, cellIndexes_1, cellIndexes_2, done",
+    "WrappableGrid.translate_3.loop4 (emptyValue firstSlab indexCoefficients__0 indexCoefficients__1 indexCoefficients__2 indexOffsetsAlongAxes__0 indexOffsetsAlongAxes__1 indexOffsetsAlongAxes__2 lastSlab numberOfCellsAlongAxes__0 numberOfCellsAlongAxes__1 numberOfCellsAlongAxes__2) carried: buffer_, cellIndexes_0, cellIndexes_1, cellIndexes_2, done",
+    "WrappableGrid.translate_3.loop5 (emptyValue firstSlab indexCoefficients__0 indexCoefficients__1 indexCoefficients__2 indexOffsetsAlongAxes__0 indexOffsetsAlongAxes__1 indexOffsetsAlongAxes__2 lastSlab numberOfCellsAlongAxes__0 numberOfCellsAlongAxes__1 numberOfCellsAlongAxes__2) carried: buffer_, cellIndexes_0, cellIndexes_1, cellIndexes_2, done",
+    "WrappableGrid.translate_3.loop6 (emptyValue firstSlab indexCoefficients__0 indexCoefficients__1 indexCoefficients__2 indexOffsetsAlongAxes__0 indexOffsetsAlongAxes__1 indexOffsetsAlongAxes__2 lastSlab numberOfCellsAlongAxes__0 numberOfCellsAlongAxes__1 numberOfCellsAlongAxes__2) carried: buffer_, cellIndexes_0, cellIndexes_1, cellIndexes_2, done",
+    "WrappableGrid.translate_3.loop7 (emptyValue firstSlab indexCoefficients__0 indexCoefficients__1 indexCoefficients__2 indexOffsetsAlongAxes__0 indexOffsetsAlongAxes__1 indexOffsetsAlongAxes__2 lastSlab numberOfCellsAlongAxes__0 numberOfCellsAlongAxes__1 numberOfCellsAlongAxes__2) carried: buffer_, cellIndexes_0, cellIndexes_1, cellIndexes_2, done",
+    "WrappableGrid.translate_3 (fuel buffer_ emptyValue indexCoefficients__0 indexCoefficients__1 indexCoefficients__2 indexOffset_0 indexOffset_1 indexOffset_2 indexOffsetsAlongAxes__0 indexOffsetsAlongAxes__1 indexOffsetsAlongAxes__2 numberOfCellsAlongAxes__0 numberOfCellsAlongAxes__1 numberOfCellsAlongAxes__2) result: buffer_', indexOffsetsAlongAxes__0', indexOffsetsAlongAxes__1', indexOffsetsAlongAxes__2' (none = fuel exhausted)",
+    "WrappableGrid.operator_call_const_2 (buffer_ cellIndexes_0 cellIndexes_1 indexCoefficients__0 indexCoefficients__1 indexOffsetsAlongAxes__0 indexOffsetsAlongAxes__1 numberOfCellsAlongAxes__0 numberOfCellsAlongAxes__1) result: ret",
+    "WrappableGrid.operator_call_const_3 (buffer_ cellIndexes_0 cellIndexes_1 cellIndexes_2 indexCoefficients__0 indexCoefficients__1 indexCoefficients__2 indexOffsetsAlongAxes__0 indexOffsetsAlongAxes__1 indexOffsetsAlongAxes__2 numberOfCellsAlongAxes__0 numberOfCellsAlongAxes__1 numberOfCellsAlongAxes__2) result: ret",
+    "WrappableGrid.operator_call_ref_2 (cellIndexes_0 cellIndexes_1 indexCoefficients__0 indexCoefficients__1 indexOffsetsAlongAxes__0 indexOffsetsAlongAxes__1 numberOfCellsAlongAxes__0 numberOfCellsAlongAxes__1) result: ret = the LOCATION returned by reference (index into buffer_)",
+    "WrappableGrid.operator_call_ref_3 (cellIndexes_0 cellIndexes_1 cellIndexes_2 indexCoefficients__0 indexCoefficients__1 indexCoefficients__2 indexOffsetsAlongAxes__0 indexOffsetsAlongAxes__1 indexOffsetsAlongAxes__2 numberOfCellsAlongAxes__0 numberOfCellsAlongAxes__1 numberOfCellsAlongAxes__2) result: ret = the LOCATION returned by reference (index into buffer_)",
+    "Grid.setValue_2 (buffer_ value) result: buffer_'",
+    "Grid.setValue_3 (buffer_ value) result: buffer_'"] := by rfl
+
 end Romea.Hidden.C15
